@@ -25,7 +25,7 @@ func chunkings(zero bool) []chunking {
 		pats = append(append([][]int{}, patsPlain...), patsZero...)
 	}
 	for _, p := range pats {
-		cs = append(cs, chunking{p, true}, chunking{p, false})
+		cs = append(cs, chunking{p, true, 0}, chunking{p, false, 0})
 	}
 	return cs
 }
@@ -60,7 +60,7 @@ func spaceOf(tier string) space {
 			longLens256:  []int{255, 256, 257, 512, 513, 1024},
 			longShapes:   []string{"all-equal", "descending", "stride37"},
 			longDests:    dests,
-			longChunking: []chunking{{[]int{-1}, true}, {[]int{-1}, false}, {[]int{3, 1}, true}, {[]int{0, -1}, false}, {[]int{1, 0, 0, 2}, true}},
+			longChunking: []chunking{{[]int{-1}, true, 0}, {[]int{-1}, false, 0}, {[]int{3, 1}, true, 0}, {[]int{0, -1}, false, 0}, {[]int{1, 0, 0, 2}, true, 0}},
 		}
 	}
 	return space{
@@ -70,7 +70,7 @@ func spaceOf(tier string) space {
 		longLens256: []int{255, 256, 257, 513, 1024},
 		longShapes:  []string{"all-equal", "descending"},
 		longDests:   []int{2}, longRotateKinds: true,
-		longChunking: []chunking{{[]int{-1}, true}, {[]int{1, 0, 0, 2}, false}},
+		longChunking: []chunking{{[]int{-1}, true, 0}, {[]int{1, 0, 0, 2}, false, 0}},
 	}
 }
 
@@ -367,18 +367,234 @@ func enumerate(tier string, visit func(name string, body func(w *worker))) {
 						visit("sort/struct{}", func(w *worker) {
 							in := mk()
 							w.count("sort.struct{}_cases")
-							w.sortCase(kUnit, cfg, in, 2, chunking{[]int{-1}, true}, -1)
-							w.sortCase(kUnit, cfg, in, 5, chunking{[]int{1, 0, 0, 2}, false}, -1)
+							w.sortCase(kUnit, cfg, in, 2, chunking{[]int{-1}, true, 0}, -1)
+							w.sortCase(kUnit, cfg, in, 5, chunking{[]int{1, 0, 0, 2}, false, 0}, -1)
 						})
 						visit("sort/compact-codec", func(w *worker) {
 							in := mk()
 							w.count("sort.compact_codec_cases")
-							w.sortCase(kRLE, cfg, in, 2, chunking{[]int{-1}, true}, -1)
-							w.sortCase(kRLE, cfg, in, 5, chunking{[]int{1, 0, 0, 2}, false}, -1)
+							w.sortCase(kRLE, cfg, in, 2, chunking{[]int{-1}, true, 0}, -1)
+							w.sortCase(kRLE, cfg, in, 5, chunking{[]int{1, 0, 0, 2}, false, 0}, -1)
 						})
 					}
 				}
 			}
+		}
+	}
+	// --- pointer-free struct columns (value: kPt, key: kPKey) ---------------------------
+	// gob omits zero-valued struct fields, so a decoder that reuses a frame must
+	// clear it first: the inputs alternate which field is zero between consecutive
+	// buffer-fulls (period = rows per encoded batch), runs / streams are longer
+	// than two buffer-fulls, and the merge and reduce readers are fed by real
+	// decoding readers (encoded-stream upstream) as well as by scripted ones.
+	structKinds := []kind{kPt, kPKey}
+	// alt gives the payload of the row at position pos of a run/stream: the
+	// non-zero field flips every `period` rows. kPKey rows keep plain payloads
+	// (their zero fields are in the key: B = V%3).
+	alt := func(k kind, pos, period, val int) int {
+		if k != kPt {
+			return val
+		}
+		if (pos/period)%2 == 0 {
+			return val << 16
+		}
+		return val
+	}
+	structCols := func() {
+		// short, exhaustive: every 3-key sequence x small canaries
+		maxLen := 3
+		if tier == "thorough" {
+			maxLen = 4
+		}
+		for l := 0; l <= maxLen; l++ {
+			seqs3(l, func(sq []int) {
+				vs := append([]int(nil), sq...)
+				for _, kd := range structKinds {
+					for _, cfg := range cfgsShort {
+						if cfg.canary >= 100 {
+							continue
+						}
+						kd, cfg := kd, cfg
+						visit("sort/struct-col/short", func(w *worker) {
+							in := rowsOf(vs, 0)
+							for i := range in {
+								in[i].P = alt(kd, i, 1, i+1)
+							}
+							w.sortCase(kd, cfg, in, 2, chunking{pat: []int{-1}, eofWithData: true}, -1)
+							w.sortCase(kd, cfg, in, 5, chunking{enc: cfg.batch}, -1)
+						})
+					}
+				}
+			})
+		}
+		// long runs: more than two buffer-fulls per run
+		type lc struct {
+			cfg sortCfg
+			ns  []int
+		}
+		for _, c := range []lc{
+			{sortCfg{4, 1, 1}, []int{7, 16, 31}}, {sortCfg{3, 1, 16}, []int{7, 16}}, {sortCfg{7, 2, 16}, []int{7, 16, 31}}, {sortCfg{5, 2, 1024}, []int{16, 31}},
+			{sortCfg{256, 128, 1024}, []int{300, 700, 1000}}, {sortCfg{400, 128, 1 << 20}, []int{300, 700, 1000}}, {sortCfg{130, 128, 16}, []int{300, 700}},
+		} {
+			for _, n := range c.ns {
+				for _, sh := range []string{"descending", "ascending", "stride37"} {
+					for _, kd := range structKinds {
+						kd, cfg, n, sh := kd, c.cfg, n, sh
+						visit("sort/struct-col/long", func(w *worker) {
+							mk := func(period int) []row {
+								in := make([]row, n)
+								for i := range in {
+									v := n - 1 - i
+									switch sh {
+									case "ascending":
+										v = i
+									case "stride37":
+										v = (i * 37) % n
+									}
+									// position in a sorted run is the key rank up to an offset; rows
+									// `period` ranks apart share a buffer slot in consecutive fills.
+									in[i] = row{v, alt(kd, v, period, v+1)}
+									if kd == kPKey {
+										in[i].P = i
+									}
+								}
+								return in
+							}
+							in := mk(cfg.batch)
+							for _, d := range dests {
+								w.sortCase(kd, cfg, in, d, chunking{pat: []int{-1}, eofWithData: true}, -1)
+							}
+							w.sortCase(kd, cfg, in, 2, chunking{pat: []int{3, 1}}, -1)
+							for _, e := range []int{cfg.batch, 2*cfg.batch + 1} {
+								w.sortCase(kd, cfg, mk(e), 2, chunking{enc: e}, -1)
+							}
+						})
+					}
+				}
+			}
+		}
+		// merge and reduce readers over real decoding readers
+		encs := func(b int) []int { return []int{b, 2*b + 1, max(1, b/2)} }
+		for _, b := range batches {
+			b := b
+			for _, lens := range [][]int{{3*b + 1}, {2*b + 1, 3*b + 2}, {3 * b, 0, 2*b + 1}} {
+				for _, sh := range []string{"interleaved", "disjoint", "identical"} {
+					for _, kd := range structKinds {
+						for _, e := range encs(b) {
+							lens, sh, kd, e := lens, sh, kd, e
+							mk := func() [][]row {
+								streams := make([][]row, len(lens))
+								p, base := 0, 0
+								for j, n := range lens {
+									for i := 0; i < n; i++ {
+										v := i
+										switch sh {
+										case "interleaved":
+											v = i*len(lens) + j
+										case "disjoint":
+											v = base + i
+										}
+										streams[j] = append(streams[j], row{v, alt(kd, i, e, p+1)})
+										p++
+									}
+									base += n
+								}
+								return streams
+							}
+							visit("merge/struct-col", mergeBody(kd, b, mk, dests, []chunking{{enc: e}}, len(lens) == 2 && b <= 2))
+							visit("merge/struct-col", mergeBody(kd, b, mk, []int{2}, []chunking{{pat: []int{-1}, eofWithData: true}}, false))
+						}
+					}
+				}
+			}
+			// reduce: unique keys per stream; chunk = b
+			n := 3*b + 2
+			all := make([]int, n)
+			for i := range all {
+				all[i] = i
+			}
+			var ev2, th3 []int
+			for v := 0; v < n; v++ {
+				if v%2 == 0 {
+					ev2 = append(ev2, v)
+				}
+				if v%3 == 0 {
+					th3 = append(th3, v)
+				}
+			}
+			sets := [][]int{all, ev2, th3}
+			for _, t := range [][]int{{0}, {0, 0}, {0, 1}, {1, 2}, {0, 1, 2}, {0, 0, 0}} {
+				for _, kd := range structKinds {
+					for _, e := range encs(b) {
+						t, kd, e := t, kd, e
+						mk := func() [][]row {
+							streams := make([][]row, len(t))
+							mul := 1
+							for j, si := range t {
+								for i, v := range sets[si] {
+									if kd == kPt {
+										streams[j] = append(streams[j], row{v, alt(kd, i, e, v+1)})
+									} else {
+										streams[j] = append(streams[j], row{v, (v + 1) * mul})
+									}
+								}
+								mul *= 1000
+							}
+							return streams
+						}
+						visit("reduce/struct-col", reduceBody(kd, b, mk, dests, []chunking{{enc: e}}, len(t) == 2 && b <= 2))
+						visit("reduce/struct-col", reduceBody(kd, b, mk, []int{2}, []chunking{{pat: []int{-1}, eofWithData: true}}, false))
+					}
+				}
+			}
+		}
+		// short, exhaustive merge / reduce over decoding readers (k <= 2)
+		srt2 := sorted3(2)
+		for k := 1; k <= 2; k++ {
+			tuples(k, len(srt2), func(t []int) {
+				tt := append([]int(nil), t...)
+				for _, kd := range structKinds {
+					for _, b := range []int{1, 2} {
+						kd, b := kd, b
+						mk := func() [][]row {
+							streams := make([][]row, len(tt))
+							p := 0
+							for j, si := range tt {
+								for _, v := range srt2[si] {
+									streams[j] = append(streams[j], row{v, alt(kd, p, 1, p+1)})
+									p++
+								}
+							}
+							return streams
+						}
+						visit("merge/struct-col", mergeBody(kd, b, mk, []int{1, 2}, []chunking{{enc: 1}, {enc: 2}}, false))
+					}
+				}
+			})
+			tuples(k, len(subsets), func(t []int) {
+				tt := append([]int(nil), t...)
+				for _, kd := range structKinds {
+					for _, b := range []int{1, 2} {
+						kd, b := kd, b
+						mk := func() [][]row {
+							streams := make([][]row, len(tt))
+							mul := 1
+							for j, si := range tt {
+								for i, v := range subsets[si] {
+									if kd == kPt {
+										streams[j] = append(streams[j], row{v, alt(kd, i+j, 1, v+1)})
+									} else {
+										streams[j] = append(streams[j], row{v, (v + 1) * mul})
+									}
+								}
+								mul *= 1000
+							}
+							return streams
+						}
+						visit("reduce/struct-col", reduceBody(kd, b, mk, []int{1, 2}, []chunking{{enc: 1}, {enc: 2}}, false))
+					}
+				}
+			})
 		}
 	}
 	// simplest first across the three readers
@@ -388,6 +604,7 @@ func enumerate(tier string, visit func(name string, body func(w *worker))) {
 	reduceShort(1)
 	mergeShort(1)
 	sortShort(0, 2)
+	structCols() // early as well: cheap, and the only family with struct columns and decoding-reader upstreams
 	reduceShort(2)
 	mergeShort(2)
 	sortShort(3, 3)
@@ -477,7 +694,7 @@ func enumerate(tier string, visit func(name string, body func(w *worker))) {
 									w.sortCase(kd, cfg, in, 2, ch, -1)
 								}
 								// upstream error at the first, a middle and the last read ordinal
-								ch := chunking{[]int{3, 1}, false}
+								ch := chunking{[]int{3, 1}, false, 0}
 								calls := w.sortCase(kd, cfg, in, 2, ch, -1)
 								for _, e := range []int{0, calls / 2, calls - 1} {
 									w.sortCase(kd, cfg, in, 2, ch, e)
@@ -502,6 +719,7 @@ func ruleText(sp space) string {
 		"inputs up to length %d and one representative per greater length: an upstream error in place of every read ordinal for %d chunkings; "+
 		"all-equal / strictly descending%s inputs of 7..4*canary, 31, 64 rows for canary 1,2,3 and of %v rows for canary 256 (%s), full canary x batch x target product, with an error at the first, a middle and the last read ordinal; "+
 		"an (int16, struct{}) row type and a one-column row type whose registered codec run-length encodes (rows well under one byte each), over short and long inputs. "+
+		"STRUCT COLUMNS: an (int | struct{X,Y int32}) and a (struct{A,B int32} key with registered ops | int) row type, gob-encoded, whose zero fields alternate between consecutive buffer-fulls: every 3-key sequence up to length 3 (quick) / 4 (thorough) x canary 1,2,3 x batch x target through SortReader (scripted and encoded-stream upstream); distinct-key inputs of 7..1000 rows with runs of more than two buffer-fulls (batch 1, 2, 128); NewMergeReader and Reduce over sliceio decoding readers (encoded batches of b, 2b+1, b/2 rows) with streams of 2b+1..3b+2 rows, b in {1,2,128}, 1..3 streams, and every <=2-stream short case. "+
 		"MERGE: k in 0..3 streams, each every sorted 3-key sequence up to length %v (by k; so some streams empty) x spill batch %v x destination sizes x 10 chunkings (no zero-row reads: a merge buffer documents an empty read as end of input), an error at every (stream, read ordinal) when the longest stream has at most %v rows (by k); 8 long stream sets (64..300 rows) in 4 shapes. "+
 		"REDUCE: k in 0..3 streams, each every subset of 3 keys (sorted, unique keys; value = (key+1)*1000^stream so that a sum identifies the folded values) x chunk %v x destination sizes x 10 chunkings, an error at every (stream, ordinal) for k <= %d; long unique-key streams over 5, 130, 300 keys. "+
 		"After every SortReader call the worker's private temp dir is listed: it must be empty. "+
